@@ -475,7 +475,8 @@ def set_type_validate(ctx):
     vss = [f for f in repo.functions.values() if f.parent is vs_outer and f.is_generator]
     okvs = len(vss) == 1
     if okvs:
-        vs = ctx.N(vss[0])
+        from sa.normalize import call_idioms as _ci14
+        vs = _ci14(ctx, ctx.N(vss[0]))          # (keyword arguments collected in a dict and passed with **)
         yf = [y for y in ast.walk(vs.node) if isinstance(y, ast.YieldFrom)]
         okvs = len(yf) == 1 and match_expr('schema_validator(_r.res, _r, on_error=self.on_error)', resolve_here(yf[0].value),
                                            {'_r': vs.params[0]}) is not None
